@@ -432,4 +432,60 @@ example : ∃ g, parseGlif R0 (render F0 d0) = .ok g ∧ loadObjectLibs (interp 
         | cons e r ih => exact EvsPerm.cons (EvPerm.refl e) ih
       exact refl _)
 
+/-! ### non-vacuity of `legal_accepted_v1` (C12) -/
+
+def d1 : GDoc :=
+  { prolog := [.decl], name := ['a'], minor := false,
+    items := [.comment, .unicode 65,
+      .outline [.contour none [.point { x := 0, y := 0, typ := .move, smooth := false, name := some ['t'], ident := none }],
+        .comment,
+        .contour none [.point { x := 0, y := 0, typ := .line, smooth := false, name := none, ident := none }, .comment],
+        .component { base := ['b'], transform := { xScale := 0, xyScale := 0, yxScale := 0, yScale := 0, xOffset := 0, yOffset := 0 }, ident := none }],
+      .advance 0 0],
+    trailer := [] }
+
+theorem legal_d1 : LegalItemsV1 ok0 d1.items := by
+  refine ⟨?_, ?_, by decide, by decide, by decide⟩
+  · intro it hit
+    simp only [d1, List.mem_cons, List.not_mem_nil, or_false] at hit
+    rcases hit with rfl | rfl | rfl | rfl
+    · trivial
+    · exact ⟨by decide, by decide⟩
+    · intro o ho
+      simp only [List.mem_cons, List.not_mem_nil, or_false] at ho
+      rcases ho with rfl | rfl | rfl | rfl
+      · refine ⟨?_, by decide, (by intro i hi; cases hi)⟩
+        intro c hc; simp only [List.mem_cons, List.not_mem_nil, or_false] at hc; subst hc
+        exact ⟨rfl, rfl, (by intro n hn; cases hn; decide), (by intro i hi; cases hi)⟩
+      · trivial
+      · refine ⟨?_, by decide, (by intro i hi; cases hi)⟩
+        intro c hc; simp only [List.mem_cons, List.not_mem_nil, or_false] at hc
+        rcases hc with rfl | rfl
+        · exact ⟨rfl, rfl, (by intro n hn; cases hn), (by intro i hi; cases hi)⟩
+        · trivial
+      · exact ⟨by decide, ⟨rfl, rfl, rfl, rfl, rfl, rfl⟩, (by intro i hi; cases hi)⟩
+    · exact ⟨rfl, rfl⟩
+  · intro it hit
+    simp only [d1, List.mem_cons, List.not_mem_nil, or_false] at hit
+    rcases hit with rfl | rfl | rfl | rfl
+    · trivial
+    · trivial
+    · intro o ho
+      simp only [List.mem_cons, List.not_mem_nil, or_false] at ho
+      rcases ho with rfl | rfl | rfl | rfl
+      · exact ⟨rfl, by intro c hc; simp only [List.mem_cons, List.not_mem_nil, or_false] at hc; subst hc; rfl⟩
+      · trivial
+      · refine ⟨rfl, ?_⟩
+        intro c hc; simp only [List.mem_cons, List.not_mem_nil, or_false] at hc
+        rcases hc with rfl | rfl
+        · rfl
+        · trivial
+      · rfl
+    · trivial
+
+-- the format-1 document is accepted and its single named `move` point has become an anchor
+example : parseGlif R0 (renderV1 F0 d1) = loadObjectLibs (interpV1 d1) ∧
+    ((interpV1 d1).anchors.length = 1 ∧ (interpV1 d1).contours.length = 1) :=
+  ⟨legal_accepted_gdoc_v1 codec0 d1 (by decide) (by decide) legal_d1, by decide⟩
+
 end Glif
